@@ -90,13 +90,34 @@ func runC03(c *core.Ctx) {
 		k.Hostile = 25
 		k.Escape = true
 		k.Swap = true
-		k.BranchNames = append(k.BranchNames, oddBranchNames...)
+		if w.Hist%6 != 3 { // a sixth of the histories keeps the walker's small pool of odd names and twins
+			k.BranchNames = append(k.BranchNames, oddBranchNames...)
+		}
 		k.Init()
 		// get to a state with a commit quickly in most histories
 		if w.Hist%5 != 0 {
 			k.Do("commit-all")
 		}
+		if w.Hist%12 == 5 {
+			// a command that fails half-way: a directory whose first file is large and whose last entries cannot be
+			// read (a dangling link, a link to a directory). Whatever was staged before the failure must be stored.
+			c.Count("C03.unreadable-entry-histories")
+			d := pickS(k.R, []string{"pile", "big.d", "src/gen"})
+			w.EditRand(d+"/a-first.bin", fmt.Sprint("c03-", w.Hist), int64(1+k.R.IntN(4))<<20)
+			w.Write(d+"/b.txt", k.content())
+			w.Symlink(d+"/y-dir-link", "..")
+			w.Symlink(d+"/z-dangling", "no-such-target")
+			k.goit("add", d)
+			k.goit("status")
+			k.goit("add", ".")
+			k.goit("commit", "-m", "after a partly failed add")
+			w.Edit("rm", d+"/z-dangling", nil)
+			w.Edit("rm", d+"/y-dir-link", nil)
+		}
 		for i := 0; i < steps; i++ {
+			if w.Hist%6 == 3 && (i == 8 || i == 24) && w.State().Repo().HeadCommit() != "" {
+				k.TwinProbe()
+			}
 			k.Step()
 			st := w.Steps[len(w.Steps)-1]
 			if st.Kind == "goit" {
@@ -140,12 +161,16 @@ func (C18Mon) After(w *core.World, st *core.Step) {
 		w.Fail("C18.race-report", "data-race", st.Cmd(), "%s: the race detector reported a data race", st.String())
 	}
 	c.Oracle("C18.exit-code")
-	if st.Signal == "" && st.Exit != 0 && st.Exit != 1 {
+	if st.Signal == "" && st.Exit != 0 && st.Exit != 1 && !st.Res.TimedOut {
 		w.Fail("C18.exit-code", fmt.Sprintf("exit-%d", st.Exit), st.Cmd(), "%s ended with exit status %d", st.String(), st.Exit)
 	}
 	c.Oracle("C18.cpu")
 	if st.Res.CPUms > 10000 {
 		w.Fail("C18.cpu", "cpu-over-10s", st.Cmd(), "%s consumed %d ms of CPU", st.String(), st.Res.CPUms)
+	} else if st.Res.Blocked {
+		c.Oracle("C18.hang")
+		w.Shadow["c18.hang"] = true
+		w.Fail("C18.hang", "blocked-for-ever", st.Cmd(), "%s never ended: every thread of the process slept without using CPU over consecutive samples (it waits for something that cannot come): %s", st.String(), clipS(firstGoroutineWait(st.Stderr), 300))
 	} else if st.Res.TimedOut {
 		c.Inconclusive("wall-clock watchdog fired for " + st.String())
 	}
@@ -155,6 +180,20 @@ func (C18Mon) After(w *core.World, st *core.Step) {
 			w.Fail("C18.refused-changed", "state-changed", st.Cmd()+":"+why, "%s was constructed as invalid (%s), was refused, but changed %v", st.String(), why, firstN(d, 6))
 		}
 	}
+}
+
+// firstGoroutineWait extracts the blocked goroutines' states from the SIGQUIT dump ("goroutine 7 [chan send]:").
+func firstGoroutineWait(stderr string) string {
+	var out []string
+	for _, ln := range strings.Split(stderr, "\n") {
+		if strings.HasPrefix(ln, "goroutine ") && strings.Contains(ln, "[") {
+			out = append(out, strings.TrimSuffix(ln, ":"))
+		}
+		if len(out) >= 6 {
+			break
+		}
+	}
+	return strings.Join(out, "; ")
 }
 
 func panicClass(line string) string {
@@ -245,10 +284,14 @@ func runC18(c *core.Ctx) {
 		k.Escape = w.Hist%2 == 0
 		k.Swap = w.Hist%4 == 0
 		k.MsgClass = true
-		k.BranchNames = append(k.BranchNames, oddBranchNames...)
-		if c.GoitRace != "" && w.Hist%3 == 0 {
+		if w.Hist%6 != 3 { // a sixth of the histories keeps the walker's small pool of odd names and twins
+			k.BranchNames = append(k.BranchNames, oddBranchNames...)
+		}
+		onRace := false
+		if c.GoitRace != "" && w.Hist%64 == 1 { // a process under the race detector costs about 100x a plain one: few, focused histories
 			w.GoitBin = c.GoitRace // tripwire: race detector + checkptr
 			c.Count("C18.histories-on-race-binary")
+			onRace = true
 		}
 		switch w.Hist % 8 {
 		case 0: // commands before init, then fresh repository without identity
@@ -289,6 +332,29 @@ func runC18(c *core.Ctx) {
 				k.Do("commit-all")
 			}
 		}
+		if w.Hist%6 == 3 || onRace {
+			// scale: enough paths for any batching / worker pool a command may use (and, on the race binary, for two
+			// workers to touch shared state)
+			if !w.State().HasGoit() {
+				k.Init()
+			}
+			big := k.Populate(40 + k.R.IntN(120))
+			k.goit("add", ".")
+			k.goit("commit", "-m", "many")
+			k.PerturbMany(big)
+			k.goit("status")
+			k.goit("restore", ".")
+			k.PerturbMany(big)
+			k.goit("add", ".")
+			k.goit("status")
+			k.goit("commit", "-m", "many again")
+			k.goit("log")
+			k.goit("reset", "--hard", "HEAD@{1}")
+			k.goit("reset", "--mixed", "HEAD@{1}")
+			k.goit("restore", "--staged", ".")
+			k.goit("rm", "big")
+			k.goit("ls-files")
+		}
 		if w.Hist%8 >= 5 {
 			// a user-written ignore file with arbitrary lines: Latin-1 names, metacharacters, blanks, NUL, long lines
 			lines := [][]byte{[]byte("caf\xe9.txt"), []byte("a(b/"), []byte("*.[ch]"), []byte(""), []byte("  "), []byte("\x00x"), []byte("**"), []byte("?+"), []byte("dir with space/"), []byte("*.\xff\xfe"), bytes.Repeat([]byte("l"), 5000), []byte("\\"), []byte("a|b"), []byte("^x$"), []byte("{1,2}")}
@@ -302,6 +368,12 @@ func runC18(c *core.Ctx) {
 			k.goit("add", ".")
 		}
 		for i := 0; i < steps; i++ {
+			if onRace && i >= 5 {
+				break
+			}
+			if w.Shadow["c18.hang"] != nil {
+				break // every further command of this history would cost a watchdog period
+			}
 			if k.chance(12) {
 				garbage(k)
 			} else {
